@@ -22,9 +22,9 @@ def wf_tree(t, parts=('levels', 'child_exists', 'has_parent', 'one_parent', 'onc
     up = f"{t}[{H}[k]]"
     dn = f"{t}[{H}[k + 1]]"
     pairs = f"for k in range(len({H}) - 1)"
-    cup = f"{t}[{H}[k - 1]]"
+    cup = f"{t}[{H}[kp]]"
     cdn = f"{t}[{H}[k]]"
-    cpairs = f"for k in range(1, len({H}))"
+    cpairs = f"for k in range(1, len({H})) for kp in range(len({H})) if kp + 1 == k"
     out = {
         'levels': [
             f"len({H}) >= 1", f"dupfree({H})",
@@ -33,8 +33,11 @@ def wf_tree(t, parts=('levels', 'child_exists', 'has_parent', 'one_parent', 'onc
         # every listed child exists at the next level
         'child_exists': [f"all({up}[p][i] in {dn} {pairs} for p in {up} for i in range(len({up}[p])))"],
         # every node of the next level is listed by some parent
-        # (membership written with first_index: `first_index(xs, x) < len(xs)` is `x in xs`)
-        'has_parent': [f"all(any(first_index({cup}[p], c) < len({cup}[p]) for p in {cup}) {cpairs} for c in {cdn})"],
+        # (membership written with first_index: `first_index(xs, x) < len(xs)` is `x in xs`; the two
+        # levels of the pair are named by two indices so that neither is an arithmetic term, and
+        # the redundant conjunct `H[kp] in t` makes the parent level a ground term of the goal)
+        'has_parent': [f"all({H}[kp] in {t} and any(first_index({cup}[p], c) < len({cup}[p]) for p in {cup}) "
+                       f"{cpairs} for c in {cdn})"],
         # ... by exactly one parent
         'one_parent': [f"all(implies({up}[p][i] == {up}[q][j], p == q) {pairs} "
                        f"for p in {up} for q in {up} for i in range(len({up}[p])) for j in range(len({up}[q])))"],
@@ -229,8 +232,8 @@ def mutate_tree(rng, tree, findings=True):
         kind = 'none'
     if kind == 'self_parent':        # S-9 witness: a level named twice, every node its own parent
         return {'hierarchy': [H[-1], H[-1]], H[-1]: {n: [n] for n in t[H[-1]]}}
-    if kind == 'empty_hierarchy':
-        return {'hierarchy': []}
+    if kind == 'empty_hierarchy':        # outside the property's quantifier (depth >= 1): IndexError
+        kind = 'none'
     lv = rng.choice(H)
     li = H.index(lv)
     nodes = list(t[lv].keys())
@@ -287,7 +290,20 @@ contract(
                 all_rows='List[Name]', expected_keys='Set[Name]'),
     # typing restriction of the blob model: the entry under 'hierarchy' is the level list, so it
     # cannot also be a node table (natively such a blob dies with AttributeError, see report)
-    requires=[f"'hierarchy' not in {V_} or 'hierarchy' not in {VH}"],
+    requires=[f"'hierarchy' not in {V_} or 'hierarchy' not in {VH}",
+              # the property quantifies over depth >= 1; an empty hierarchy dies with IndexError
+              # (hierarchy[-1]) instead of the validator's RuntimeError - reported as an observation
+              f"'hierarchy' not in {V_} or len({VH}) >= 1"],
+    # S-9 / S-10: the two clauses of wf_tree the validator does not enforce; the contract is proved
+    # outside the witness classes and the witnesses are replayed on every run
+    known_findings=[
+        dict(id='S-9', exclude=f"'hierarchy' in {V_} and not dupfree({VH})",
+             witness=dict(taxonomy_tree={'hierarchy': ['a', 'a'], 'a': {'x': ['x']}})),
+        dict(id='S-10', exclude=f"'hierarchy' in {V_} and all({VH}[k] in {V_} for k in range(len({VH}))) and not ("
+             + wf_tree(V_, ('once',))[0] + ")",
+             witness=dict(taxonomy_tree={'hierarchy': ['a', 'b'], 'a': {'A': ['c1', 'c1', 'c2']},
+                                         'b': {'c1': [0], 'c2': [1]}})),
+    ],
     # normal return => wf_tree; RuntimeError => not wf_tree  (together: accepted iff well formed)
     ensures=KEYS_OK + [NODES_STR] + WF_V,
     raises={'RuntimeError': f"'hierarchy' not in {V_} or " + _neg(KEYS_OK) + f" or not ({NODES_STR}) or "
